@@ -101,8 +101,8 @@ fn gen_case(dna: &mut Dna, family: &Family) -> (Vec<u8>, String) {
 
 fn cases_for(tier: Tier) -> u64 {
     match tier {
-        Tier::Quick => 2_400,
-        Tier::Thorough => 32_000,
+        Tier::Quick => 16_000,
+        Tier::Thorough => 200_000,
     }
 }
 
